@@ -77,8 +77,8 @@ package join
 //@   requires [C03 C16] in-order-subsequence-of-the-input: gInN - len(s) >= gDelivPos && (forall j :: 0 <= j && j < len(s) ==> s[j] == gIn[gInN - len(s) + j])
 //@   requires [C09] cut-short-only-by-timeout-or-end: gTO <= 0 ==> (len(s) == gJS || gClosed || gStop)
 //@   requires [C09] short-slice-not-before-timeout: (len(s) < gJS && !gClosed && !gStop) ==> gClock - gLastDeliv >= gTO
-//@   requires [C08] copy-shares-no-memory: !gNC ==> (!in(gOwned, s.arr) && s.arr != dsc.join.arr)
-//@   requires [C08] nothing-on-loan: gLent == 0
+//@   requires [C08 C20] copy-shares-no-memory: !gNC ==> (!in(gOwned, s.arr) && s.arr != dsc.join.arr)
+//@   requires [C08 C20] nothing-on-loan: gLent == 0
 //@   requires [C16] nothing-after-close: !gOutClosed
 //@   effect gOutN := gOutN + len(s)
 //@   effect gDelivPos := gInN
@@ -95,7 +95,7 @@ package join
 
 // Every write into a backing array (append in place, element assignment, copy).
 //@ event heapwrite (r)
-//@   requires [C08] never-writes-a-delivered-array: !in(gOwned, r) && r != gLent
+//@   requires [C08 C20] never-writes-a-delivered-array: !in(gOwned, r) && r != gLent
 
 //@ event call time.NewTicker (d)
 //@   requires [C10] ticker-period-is-interrupt-interval: d == dsc.interruptInterval
@@ -104,7 +104,7 @@ package join
 //@   requires [C16] output-closed-when-stop-returns: gOutClosed
 
 //@ pred WFJ(dsc)
-//@   [* C03 C08 C09 C10 C11] configured-options-are-used: dsc != nil && dsc.opts.JoinSize == gJS && dsc.opts.Timeout == gTO && ((dsc.opts.Released != nil) <==> gNC)
+//@   [* C03 C08 C20 C09 C10 C11] configured-options-are-used: dsc != nil && dsc.opts.JoinSize == gJS && dsc.opts.Timeout == gTO && ((dsc.opts.Released != nil) <==> gNC)
 //@   [*] dsc != nil && gJS >= 1 && gJS < two63
 //@   [*] cap(dsc.join) == gJS && len(dsc.join) <= gJS && dsc.join.arr != 0 && allocated(dsc.join.arr)
 //@   [*] dsc.interruptInterval >= 0
@@ -117,9 +117,9 @@ package join
 //@   [C03] gStop || gOutN + len(dsc.join) == gInN
 
 //@ pred OWN(dsc)
-//@   [C08] dsc.unreleased ==> (gLent == dsc.join.arr && gStop)
-//@   [C08] !dsc.unreleased ==> (!in(gOwned, dsc.join.arr) && gLent == 0)
-//@   [C08] forall r :: in(gOwned, r) ==> allocated(r)
+//@   [C08 C20] dsc.unreleased ==> (gLent == dsc.join.arr && gStop)
+//@   [C08 C20] !dsc.unreleased ==> (!in(gOwned, dsc.join.arr) && gLent == 0)
+//@   [C08 C20] forall r :: in(gOwned, r) ==> allocated(r)
 
 //@ pred TIME(dsc)
 //@   [C09] gLastDeliv <= dsc.passAt && dsc.passAt <= gClock
@@ -139,38 +139,38 @@ package join
 //@   requires [*] WFJ(dsc)
 //@   modifies dsc.join
 //@   ensures [*] dsc.join.arr == old(dsc.join.arr) && cap(dsc.join) == old(cap(dsc.join)) && dsc.join.off == old(dsc.join.off)
-//@   ensures [* C03 C08 C10 C16] len(dsc.join) == 0 || (dsc.unreleased && len(dsc.join) == old(len(dsc.join)))
+//@   ensures [* C03 C08 C20 C10 C16] len(dsc.join) == 0 || (dsc.unreleased && len(dsc.join) == old(len(dsc.join)))
 
 //@ func (*Discipline).prepareItem
 //@   requires [*] WFJ(dsc)
-//@   ensures [* C03 C08 C16] gNC ==> result == item
+//@   ensures [* C03 C08 C20 C16] gNC ==> result == item
 //@   ensures [* C03 C16] len(result) == len(item) && (forall j :: 0 <= j && j < len(item) ==> result[j] == item[j])
-//@   ensures [C08] (!gNC && len(item) > 0) ==> fresh(result.arr)
+//@   ensures [C08 C20] (!gNC && len(item) > 0) ==> fresh(result.arr)
 
 //@ func (*Discipline).send
 //@   requires [*] WFJ(dsc)
-//@   requires [* C03 C08 C16] !dsc.unreleased
-//@   requires [C03 C08] len(item) >= 1
+//@   requires [* C03 C08 C20 C16] !dsc.unreleased
+//@   requires [C03 C08 C20] len(item) >= 1
 //@   requires [C03] len(item) <= gJS && (!gStop ==> gOutN + len(item) == gInN)
 //@   requires [C03 C16] gInN - len(item) >= gDelivPos && (forall j :: 0 <= j && j < len(item) ==> item[j] == gIn[gInN - len(item) + j])
 //@   requires [C09] gTO <= 0 ==> (len(item) == gJS || gClosed || gStop)
 //@   requires [C09] (len(item) < gJS && !gClosed && !gStop) ==> gClock - gLastDeliv >= gTO
 //@   requires [C09] gLastDeliv <= gClock
-//@   requires [C08] OWN(dsc)
-//@   requires [C08] item.arr == dsc.join.arr
+//@   requires [C08 C20] OWN(dsc)
+//@   requires [C08 C20] item.arr == dsc.join.arr
 //@   requires [C16] !gOutClosed
 //@   modifies dsc.unreleased, gOutN, gDelivPos, gLastDeliv, gLent, gOwned, gStop, gClock
 //@   ensures [C03] gStop || gOutN == old(gOutN) + len(item)
 //@   ensures [C03 C16] gOutN >= old(gOutN) && gDelivPos <= gInN && gDelivPos >= old(gDelivPos)
-//@   ensures [* C03 C08 C09 C16] old(gStop) ==> gStop
+//@   ensures [* C03 C08 C20 C09 C16] old(gStop) ==> gStop
 //@   ensures [C09] gLastDeliv <= gClock && gClock >= old(gClock)
-//@   ensures [C08] OWN(dsc)
+//@   ensures [C08 C20] OWN(dsc)
 //@   ensures [* C10] dsc.unreleased ==> gStop
 
 //@ func (*Discipline).pass
 //@   requires [*] WFJ(dsc)
 //@   requires [C03 C16] SEQ(dsc)
-//@   requires [C08] OWN(dsc)
+//@   requires [C08 C20] OWN(dsc)
 //@   requires [C09] TIME(dsc)
 //@   requires [C09] gTO <= 0 ==> (len(dsc.join) == 0 || len(dsc.join) == gJS || gClosed || gStop || dsc.unreleased)
 //@   requires [C09] len(dsc.join) == 0 || len(dsc.join) == gJS || gClosed || gStop || dsc.unreleased || gClock - dsc.passAt >= gTO
@@ -179,11 +179,11 @@ package join
 //@   ensures [*] WFJ(dsc)
 //@   ensures [*] dsc.join.arr == old(dsc.join.arr) && cap(dsc.join) == old(cap(dsc.join)) && dsc.join.off == old(dsc.join.off)
 //@   ensures [* C03 C10 C16] len(dsc.join) == 0 || dsc.unreleased
-//@   ensures [* C03 C08 C09 C16] old(gStop) ==> gStop
-//@   ensures [* C08 C10] dsc.unreleased ==> gStop
-//@   ensures [* C08 C16] old(dsc.unreleased) ==> dsc.unreleased
+//@   ensures [* C03 C08 C20 C09 C16] old(gStop) ==> gStop
+//@   ensures [* C08 C20 C10] dsc.unreleased ==> gStop
+//@   ensures [* C08 C20 C16] old(dsc.unreleased) ==> dsc.unreleased
 //@   ensures [C03 C16] SEQ(dsc)
-//@   ensures [C08] OWN(dsc)
+//@   ensures [C08 C20] OWN(dsc)
 //@   ensures [C09] TIME(dsc)
 
 //@ func (*Discipline).process
@@ -192,22 +192,22 @@ package join
 //@   requires [C03 C16] dsc.unreleased || (gDelivPos + len(dsc.join) + 1 <= gInN && gOutN >= 0 && item == gIn[gInN - 1]
 //@            && (forall j :: 0 <= j && j < len(dsc.join) ==> dsc.join[j] == gIn[gInN - 1 - len(dsc.join) + j]))
 //@   requires [C03] gStop || gOutN + len(dsc.join) + 1 == gInN
-//@   requires [C08] OWN(dsc)
+//@   requires [C08 C20] OWN(dsc)
 //@   requires [C09] TIME(dsc)
 //@   requires [C16] !gOutClosed
 //@   modifies dsc.join, elems(dsc.join), dsc.passAt, dsc.unreleased, gClock, gOutN, gDelivPos, gLastDeliv, gLent, gOwned, gStop
 //@   ensures [*] WFJ(dsc)
 //@   ensures [*] len(dsc.join) < gJS || dsc.unreleased
-//@   ensures [* C03 C08 C09 C16] old(gStop) ==> gStop
+//@   ensures [* C03 C08 C20 C09 C16] old(gStop) ==> gStop
 //@   ensures [C03 C16] SEQ(dsc)
-//@   ensures [C08] OWN(dsc)
+//@   ensures [C08 C20] OWN(dsc)
 //@   ensures [C09] TIME(dsc)
 
 //@ pred INV(dsc)
 //@   [*] WFJ(dsc)
 //@   [*] len(dsc.join) < gJS || dsc.unreleased
 //@   [C03 C16] SEQ(dsc)
-//@   [C08] OWN(dsc)
+//@   [C08 C20] OWN(dsc)
 //@   [C09] TIME(dsc)
 //@   [C16] !gOutClosed
 
@@ -247,7 +247,7 @@ package join
 //@   ensures [*] (result == nil) <==> (opts.Input != nil && opts.JoinSize != 0)
 
 //@ func Opts.normalize
-//@   ensures [* C03 C08 C09 C10 C11] options-are-kept: result.Input == opts.Input && result.JoinSize == opts.JoinSize && result.Released == opts.Released && result.Timeout == opts.Timeout
+//@   ensures [* C03 C08 C20 C09 C10 C11] options-are-kept: result.Input == opts.Input && result.JoinSize == opts.JoinSize && result.Released == opts.Released && result.Timeout == opts.Timeout
 //@   ensures [* C10] result.TimeoutInaccuracy == ite(opts.TimeoutInaccuracy == 0, 25, opts.TimeoutInaccuracy)
 
 // The ghost state of a discipline that does not exist yet is empty. JoinSize is a size
